@@ -191,7 +191,7 @@ EXC_PARENT = {
     'ArithmeticError': 'Exception', 'Exception': 'BaseException', 'NumbaTypeError': 'TypeError',
     'OverflowError': 'ArithmeticError', 'StopIteration': 'Exception', 'OSError': 'Exception',
     'FileNotFoundError': 'OSError', 'UnicodeDecodeError': 'ValueError',
-    'ParseException': 'Exception', 'ParseSyntaxException': 'ParseException', 'DeprecationWarning': 'Warning', 'Warning': 'Exception', 'KeyboardInterrupt': 'BaseException',
+    'OutOfBoundsRead': 'BaseException', 'ParseException': 'Exception', 'ParseSyntaxException': 'ParseException', 'DeprecationWarning': 'Warning', 'Warning': 'Exception', 'KeyboardInterrupt': 'BaseException',
 }
 
 
